@@ -127,7 +127,21 @@ def build_unit(u, wd, defs):
         for ex in entries:
             src = open(os.path.join(REPO, ex["file"])).read()
             parts.append("/* GENERATED on every run by run.py from %s: preprocessor lines + verbatim text of %s */" % (ex["file"], ", ".join(ex["functions"])))
-            parts += [l for l in src.splitlines() if l.startswith("#") and not (len(entries) > 1 and l.startswith("#define") and any(l.split()[1].split("(")[0] == m for m in ("MIN", "MAX", "LEN")) and ex is not entries[0])]
+            lines_all = src.splitlines()
+            k = 0
+            while k < len(lines_all):
+                l = lines_all[k]
+                if l.startswith("#"):
+                    dup = (len(entries) > 1 and ex is not entries[0] and l.startswith("#define") and
+                           any(l.split()[1].split("(")[0] == m for m in ("MIN", "MAX", "LEN")))
+                    # a macro continued over several lines is taken whole
+                    while True:
+                        if not dup:
+                            parts.append(lines_all[k])
+                        if not lines_all[k].endswith("\\") or k + 1 >= len(lines_all):
+                            break
+                        k += 1
+                k += 1
             for rx in ex.get("lines", []):   # verbatim declaration lines (file-scope variables the functions use); each pattern must fire
                 hit = [l for l in src.splitlines() if re.match(rx, l)]
                 if not hit:
